@@ -877,12 +877,47 @@ def uncovered_pairs():
     return out, opt, non
 
 
+# optOut classes (Props/C06.lean) whose name is pinned only in one MODE; the others are pinned always
+PIN_MODE = {
+    "FromArray": lambda n: bool(n.operand("_name_is_exact")),
+    "BroadcastTrick": lambda n: n.operand("name") is not None,
+    "Ones": lambda n: n.operand("name") is not None,
+    "Zeros": lambda n: n.operand("name") is not None,
+    "Empty": lambda n: n.operand("name") is not None,
+    "Full": lambda n: n.operand("name") is not None,
+    "FromMap": lambda n: bool(n.operand("_name_prefix")),
+    "FromDelayed": lambda n: bool(n.operand("_name_prefix")),
+}
+_OPT = None
+
+
+def is_pinned(node):
+    """The node's name is pinned / hand-built (Props/C06.lean `optOut`): `content changed => name changed` is not
+    required of its operands; such names are policed by the registry only."""
+    global _OPT
+    if _OPT is None:
+        src = core._strip_comments((core.LEAN / "DaskArrayModel" / "Props" / "C06.lean").read_text())
+        m = re.search(r"def optOut : List String := \[(.*?)\]", src, re.S)
+        _OPT = set(re.findall(r'"([^"]+)"', m.group(1))) if m else set()
+    cn = type(node).__name__
+    if cn not in _OPT:
+        return False
+    f = PIN_MODE.get(cn)
+    try:
+        return True if f is None else bool(f(node))
+    except Exception:
+        return True
+
+
 def perturb_node(ctx, reg, node, positions, rng, stats, tag):
     """Perturb the operands of `node` at `positions`; report a perturbed node with the SAME name and different content."""
     from dask._expr import Expr
 
     cls = type(node)
     params = list(cls._parameters)
+    if is_pinned(node):
+        stats["pinned-name-nodes-skipped"] += 1
+        return
     base_cheap = cheap(node)
     if base_cheap is None:
         return
